@@ -84,6 +84,16 @@ def work(args):
         singles = sl.Singles(b, wd)
         for cfg in cfgs:
             singles.need(cfg, [t for _, _, lines in cases for (k, t, _) in lines if k in sl.OBJ_KINDS or k == "long"])
+        # "that line yields at most one well-formed output line" holds for every line, the ordinary ones included
+        for (cname, text), r1 in singles.cache.items():
+            if r1["rc"] != 0 or text.startswith(("\ufeff",)):
+                continue
+            whole1, rest1 = sl.out_lines(r1["out"] or b"")
+            res["evals"] += 1
+            if rest1 or len(whole1) > 1 or (whole1 and not sl.is_object_line(whole1[0].decode("utf-8", "replace"))):
+                if len(res["viol"]) < 5:
+                    res["viol"].append(("a line run alone yields output that is not one well-formed JSON object line cfg=%s" % cname,
+                                        {"flags": [c.flags for c in cfgs if c.name == cname][0], "line": text[:3000], "output": (r1["out"] or b"")[:3000].decode("utf-8", "replace")}))
         for ci, (seq_no, rec, lines) in enumerate(cases):
             ids = [i for _, _, i in lines]
             cfg = cfgs[(seq_no + ci) % len(cfgs)]
